@@ -69,6 +69,7 @@ func (b *Stack[T]) PopOrWait(waitCondition func() bool) (element T, success bool
 			return
 		}
 
+		verifPopOrWaitGap(b)
 		b.elementAdded.Wait()
 	}
 
